@@ -23,7 +23,7 @@ ASSUMPTIONS = [
     'binning clause judged only for native spacing <= 1/4 of the widest mid-point bin (narrower than the statement, see DESIGN.md); FluxBinner with implied (mid-point) widths',
     'own-grid clause is bit-equality; foreign points must lie between the two neighbouring native values (equal to the end value outside the native range)',
 ]
-RULE = RULE + ' ' + 'Also: observation layouts with unequal spacing of the bin centres (widest implied bin at the low or the high end).'
+RULE = RULE + ' ' + 'Also: observation layouts with unequal spacing of the bin centres (widest implied bin at the low or the high end). Round 10: two windows of the same length at the two ends of the native grid are evaluated one after the other on the same model (window-sequence); observations with unequal gaps are also binned with explicit widths, the end bins as wide as the widest implied bin (obs:explicit-widths).'
 REQUIRED = {'obs:explicit-widths': 0.05, 'window-sequence': 0.5, 'full-run-broke-off-then-repeated': 0.3, 'obs:widest-low': 0.02, 'obs:widest-high': 0.02, 'opacity:ktables': 0.15, 'grids:tie-for-largest': 0.04, 'obs:constant-R-wide': 0.08, 'grids:multi': 0.35, 'grids:single': 0.15, 'family:emission': 0.2, 'family:transmission': 0.2}
 
 
